@@ -187,9 +187,9 @@ Print Assumptions C14_modattr_roundtrip.
 (* the same for NESTED dotted keys.  [cur]: any object reached from the configured object o0 by a history of
    modify/restore calls on pairwise incomparable paths P in which no modify met a dictionary ([ps_reload_inv], shown to
    be an invariant of every such history by ps_reload_run - this is where "no dict->scalar replacement" and the
-   overlap signature enter).  [ps_listed_ok] for every listed key: its current value survives the writer (<= 6
-   fractional digits, C14_modattr_six_decimals), the configuration has no scalar on the way to the key, and a
-   top-level value is of its field's type.  Then: the dump succeeds, the replay on o0 succeeds, every path of P and
+   overlap signature enter; it also carries that every listed path was walkable in the configuration).
+   [ps_listed_ok] for every listed key: its current value survives the writer (<= 6 fractional digits,
+   C14_modattr_six_decimals) and a top-level value is of its field's type.  Then: the dump succeeds, the replay on o0 succeeds, every path of P and
    every path incomparable with P reads as before the restart, original_attributes has the same entries, the version
    is restored; with nothing listed the script is empty and the replay is the identity. *)
 Theorem C14_modattr_roundtrip_nested : forall fe P o0,
@@ -198,7 +198,7 @@ Theorem C14_modattr_roundtrip_nested : forall fe P o0,
   (forall p, In p P -> forall fi, ps_filookup fe (ps_field_of p) = Some fi -> ps_fi_nomod fi = false) ->
   (forall p, In p P -> forall fi, ps_filookup fe (ps_field_of p) = Some fi -> ps_coerce fi (ps_get_attr p o0) = ps_get_attr p o0) ->
   forall cur, ps_reload_inv P o0 cur ->
-  forall now, (forall k x, In (k, x) (ps_orig_dict cur) -> ps_listed_ok fe o0 cur k) ->
+  forall now, (forall k x, In (k, x) (ps_orig_dict cur) -> ps_listed_ok fe cur k) ->
   forall ver, ps_orig_dict o0 = [] ->
   exists script r,
     ps_dump_modattrs cur = Some script /\ ps_replay_modattrs fe script ver now o0 = (true, r) /\
@@ -230,7 +230,7 @@ Theorem C14_history_reload : forall fe P o0,
   (forall p, In p P -> forall fi, ps_filookup fe (ps_field_of p) = Some fi -> ps_fi_nomod fi = false) ->
   (forall p, In p P -> forall fi, ps_filookup fe (ps_field_of p) = Some fi -> ps_coerce fi (ps_get_attr p o0) = ps_get_attr p o0) ->
   forall H ver now,
-  ps_orig_dict o0 = [] -> ps_hhist_ok fe P o0 o0 H ->
+  ps_orig_dict o0 = [] -> ps_hhist_ok fe P o0 H ->
   match snd (ps_hrun fe (o0, None) H) with
   | None => forallb (fun h => negb (ps_is_dump h)) H = true
   | Some script =>
@@ -297,7 +297,7 @@ Example C14_restore_sequence_nonvacuous :
 Proof. exact ps_restore_sequence_nonvacuous. Qed.
 
 Example C14_history_nonvacuous :
-  ps_hhist_ok ps_q_fe ps_q_P ps_q_o0 ps_q_o0 ps_y_H /\
+  ps_hhist_ok ps_q_fe ps_q_P ps_q_o0 ps_y_H /\
   snd (ps_hrun ps_q_fe (ps_q_o0, None) (firstn 4 ps_y_H))
     = Some [(ps_q_n, PsStr [121]); (ps_q_a, PsNum 123456 6); (ps_q_bc, PsDict [([107], PsStr [118])])] /\
   snd (ps_hrun ps_q_fe (ps_q_o0, None) ps_y_H) = Some [].
